@@ -249,6 +249,23 @@ def run_case(ctx, mods, cap, cs, r):
         ctx.violation("C19/separation.%s/no-permutation" % fn, "no-permutation",
                       "separation." + fn, "compute_permutation=False returns perm %r"
                       % resn[nmet].tolist(), case)
+    # ... and scores estimate j against reference j: on the estimates put in
+    # the optimal order it must reproduce the scores of the permuted call
+    pi = perm.astype(int)
+    if sorted(pi.tolist()) == list(range(nsrc)):
+        resp = f(ref, est[pi], False)
+        ctx.ev()
+        ctx.count("relation.no_permutation_on_ordered_estimates")
+        bad = [nm for nm, x, y in zip(["SDR", "ISR", "SIR", "SAR"] if images else
+                                      ["SDR", "SIR", "SAR"], res[:nmet], resp[:nmet])
+               if not _close_db(x, y)]
+        if bad:
+            ctx.violation("C19/separation.%s/no-permutation-scores" % fn,
+                          "no-permutation-scores", "separation." + fn,
+                          "compute_permutation=False on the optimally ordered estimates "
+                          "gives different %s: %s vs %s" % (
+                              bad, short([m.tolist() for m in resp[:nmet]], 200),
+                              short([m.tolist() for m in res[:nmet]], 200)), case)
     # framewise consistency
     ff = getattr(sep, fn + "_framewise")
     L = cs["L"]
